@@ -841,9 +841,17 @@ class RshPeer:
             with self.lock:
                 self.got.append((addr, peer[1], data, backok))
         finally:
-            c.close()
             if back:
+                # the side that closes first keeps its local port in TIME_WAIT for a minute; here that would be a
+                # RESERVED port (the source of the back-connection), and pdsh's rresvport(), which binds without
+                # SO_REUSEADDR, finds "all ports in use" after some 500 runs.  RST instead of FIN: no TIME_WAIT.
+                import struct
+                try:
+                    back.setsockopt(socket.SOL_SOCKET, socket.SO_LINGER, struct.pack("ii", 1, 0))
+                except OSError:
+                    pass
                 back.close()
+            c.close()
 
     def take(self):
         with self.lock:
@@ -853,6 +861,20 @@ class RshPeer:
     def close(self):
         for s in self.socks:
             s.close()
+
+
+def reserved_ports_in_use():
+    """how many of the ports 512..1023 are the local port of some TCP socket (any state, TIME_WAIT included)"""
+    ports = set()
+    try:
+        for line in open("/proc/net/tcp").read().splitlines()[1:]:
+            f = line.split()
+            p_ = int(f[1].split(":")[1], 16)
+            if 512 <= p_ <= 1023 and p_ != 514:
+                ports.add(p_)
+    except (OSError, ValueError, IndexError):
+        pass
+    return len(ports)
 
 
 def part_d(ctx, cov, dist, rng, repo, only=None):
@@ -953,24 +975,43 @@ def part_d(ctx, cov, dist, rng, repo, only=None):
             g = dict(g, addrs=peer.tr(g["addrs"]), words=peer.tr(g["words"]), want=peer.tr(g["want"]))
             addrs, words, want, l, cmd = g["addrs"], g["words"], g["want"], g["l"], g["cmd"]
             argv = ["-R", "rsh", "-w", ",".join(words)] + (["-l", l] if l else []) + cmd
-            held = hold_ports(range(1022, 958, -2)) if g.get("busy") else []
-            q = None
-            for attempt in (1, 2):
+            q, got = None, []
+            timeouts = 0
+            for attempt in range(6):
+                held = hold_ports(range(1022, 958, -2)) if g.get("busy") else []
                 try:
                     q = subprocess.run([exe] + argv, env={"PATH": "/usr/bin:/bin"}, stdout=subprocess.PIPE,
                                        stderr=subprocess.PIPE, stdin=subprocess.DEVNULL, timeout=60, cwd=ctx.scratch)
-                    break
                 except subprocess.TimeoutExpired:
-                    if attempt == 1:
-                        peer.take()         # a time-out alone is tried once more before it is reported
-            for s_ in held:
-                s_.close()
+                    q = None
+                    timeouts += 1
+                finally:
+                    for s_ in held:
+                        s_.close()
+                got = peer.take()
+                if q is None:
+                    if timeouts >= 2:
+                        break
+                    continue                # a time-out alone is tried once more before it is reported
+                # The machine's 512 reserved ports are shared with every other process (other checks running at the
+                # same time, their sockets in TIME_WAIT).  When they run out pdsh either says so ("all ports in use",
+                # no connection) or -- when only the stderr socket gets none -- silently drops a connection it has
+                # just opened.  Both are the environment, not the handshake: if most reserved ports are taken, wait
+                # for them and try the case again; an anomaly that shows again with ports to spare is reported.
+                odd = b"all ports in use" in q.stderr or len(got) != len(addrs) or \
+                    any(data.count(b"\0") < 4 for _, _, data, _ in got)
+                if odd and attempt < 5 and reserved_ports_in_use() > 300:
+                    dist["rsh_reserved_ports_exhausted_retries"] = dist.get("rsh_reserved_ports_exhausted_retries", 0) + 1
+                    for _ in range(16):
+                        time.sleep(5)
+                        if reserved_ports_in_use() <= 200:
+                            break
+                    continue
+                break
             if q is None:
                 ctx.offender("timeout", "pdsh -R rsh against the scripted peer does not finish", {"argv": argv, "gen": g})
-                peer.take()
                 slow += 1
                 continue
-            got = peer.take()
             if g.get("busy"):
                 dist["rsh_busy_port_cases"] = dist.get("rsh_busy_port_cases", 0) + 1
             if g.get("shape"):
